@@ -400,6 +400,7 @@ Lemma ae_commit_ok okr s2 tr1 s8 tr8 fs8 a :
 Proof.
   intros F1 F2 F3. unfold ae_commit.
   destruct ((0 <? aq_commit a) && (v_commit s8 <? aq_commit a)); [|simpl; auto].
+  cbv zeta. destruct (v_commit s8 <? _); [|simpl; auto].
   match goal with |- context [process_logs ?S ?I] => destruct (process_logs S I) as [[s11 tra]|] eqn:EP end.
   - apply process_logs_spec in EP. destruct EP as (G1 & G2 & G3). simpl.
     rewrite sfilter_app, G3, app_nil_r. split; [exact F1|].
